@@ -295,11 +295,11 @@ def classify_refdiff(d, b):
             and (ra, re_) in (d.get("reflits") or []):
         return "fstring-piece-range-in-concatenation"
     if kind == "ExprTuple" and path.endswith(".subject.range") and ra <= a and e <= re_ and \
-            re.fullmatch(rb"[(\s\\]*", b[ra:a]) and re.fullmatch(rb"[\s),\\]*", b[e:re_]):
+            re.fullmatch(_P_OPEN, b[ra:a]) and re.fullmatch(rb"(?:" + _WS + rb"|[),])*", b[e:re_]):
         return "match-subject-tuple-range-excludes-element-parentheses"
-    if (kind in COMPOUND or kind == "MatchCase") and a == ra and e < re_ and re.fullmatch(rb"[ \t]*;", b[e:re_]):
+    if (kind in COMPOUND or kind == "MatchCase") and a == ra and e < re_ and re.fullmatch(rb"(?:[ \t\f]|\\\r?\n|\\\r)*;", b[e:re_]):
         return "compound-end-excludes-trailing-semicolon"
-    if kind == "ExprNamedExpr" and a == ra and e < re_ and re.fullmatch(rb"[\s)\\]+", b[e:re_]):
+    if kind == "ExprNamedExpr" and a == ra and e < re_ and re.fullmatch(rb"(?:" + _WS + rb"|\))+", b[e:re_]):
         return "namedexpr-range-excludes-value-parentheses"
     if ".values[" in path and b"\r\n" in b:
         k = ra - a
@@ -483,7 +483,7 @@ def streams(ctx):
                            "harness confirms the tree is current; the oracle gives the independent Python verdict"))
     # sweep with CPython positions
     opts = {"depth": 3, "pep695": False, "range_clean": True}
-    nm, ni, ne = (2000, 500, 800) if q else (30000, 8000, 12000)
+    nm, ni, ne = (4000, 1000, 1500) if q else (30000, 8000, 12000)
     gm, _ = refsweep.generated(ctx, "c02-m", nm, "m", opts, ranges=True)
     gi, _ = refsweep.generated(ctx, "c02-i", ni, "i", opts, ranges=True)
     ge, _ = refsweep.generated(ctx, "c02-e", ne, "e", dict(opts, depth=4), ranges=True)
@@ -496,7 +496,7 @@ def streams(ctx):
                       "generator without the range_clean restriction: every difference must be a listed shape"))
     out.append(_sweep("sweep-generated-pep695", gp, "m", "programs with PEP 695 forms: structure and extent rules only "
                       "(no CPython positions exist)", with_ref=False))
-    files = refsweep.stdlib("m", ranges=True, limit=(300 if q else None), rng=ctx.rng("stdlib"))
+    files = refsweep.stdlib("m", ranges=True, limit=(500 if q else None), rng=ctx.rng("stdlib"))
     out.append(_sweep("sweep-stdlib-module", [(s, None, r) for _, s, r in files], "m",
                       f"{len(files)} CPython stdlib files", kind="corpus"))
     return out
